@@ -65,6 +65,9 @@ func (c04) Gen(rng *rand.Rand, tier string, k int) *Case {
 			n = min(S+3, 110)
 		}
 		c.Lens[0] = n
+		if rng.Intn(12) == 0 {
+			c.Shape = ShapeLateStart // the series opens with bars that have no quote yet
+		}
 	}
 	if rng.Intn(10) == 0 {
 		c.Variant = 3 // every non-period parameter zero: causality must not depend on them
